@@ -669,3 +669,28 @@ func groupingIntersectsPerTagKey(c *eng.Ctx) {
 	}
 	c.Check(n >= 1, "and-found", nil, f, "GetGroupingContext intersects the candidates with the tag keys' series", fmt.Sprintf("%d", n))
 }
+
+// existenceProbedBeforeCreate (shared by C05, C06 and C08): "does this queue / group have persisted positions?" is answered by probing the
+// meta page FILE; AcquirePage creates that file. The probe therefore runs before the page is acquired on every path - afterwards it is
+// always true and a brand-new object reads consumed = acknowledged = 0 (or appended = 0) from the zero-filled page instead of -1.
+func existenceProbedBeforeCreate(c *eng.Ctx, fnKey, pageRecv string) {
+	p := c.P
+	f := c.Fn(fnKey)
+	probe := eng.Any(eng.CallTo("var:pkg/queue.existFunc", "pkg/fileutil.Exist"), func(_ *eng.Prog, in ssa.Instruction) bool {
+		cl, ok := in.(*ssa.Call)
+		return ok && cl.Common().StaticCallee() != nil && cl.Common().StaticCallee().Name() == "Exist"
+	})
+	probes := p.SitesDirect(f, probe)
+	acq := p.SitesDirect(f, invokeOn(pageRecv, "AcquirePage"))
+	if len(probes) == 0 || len(acq) == 0 {
+		c.Undecided("%s: %d existence probes, %d AcquirePage calls", fnKey, len(probes), len(acq))
+	}
+	for i, pr := range probes {
+		w, after := eng.Reaches(f, acq[0].Instr, []eng.Site{pr}, nil)
+		detail := ""
+		if after {
+			detail = "the probe at " + p.InstrPos(w) + " can run after AcquirePage created the file"
+		}
+		c.Check(!after, fmt.Sprintf("probe-before-acquire[%d]", i), pr.Instr, f, "the meta page file is probed before AcquirePage creates it", detail)
+	}
+}
